@@ -239,6 +239,7 @@ func c15Check(c c15Case) *vResult {
 	res := &vResult{}
 	w := vNewWorld(vWorldOpts{WebUIBackends: []string{"password"}, CertBackends: []string{"password"}})
 	defer w.Close()
+	w.vShimPrimary()
 	state := w.state
 	model := map[string]*userProfile{}
 	shape := ""
@@ -291,7 +292,7 @@ func c15Check(c c15Case) *vResult {
 			cachePath := filepath.Join(w.dir, cachedDBFilename)
 			primaryPath := filepath.Join(w.dir, profileDBFilename)
 			before := c15Dump(state.cacheDB, false)
-			expected := c15Dump(state.db, true)
+			expected := c15Dump(w.vRawPrimary(), true)
 			nStatements := 0
 			for _, side := range []string{"dest", "source"} {
 				for k := 1; k < 400; k++ {
@@ -353,7 +354,7 @@ func c15Check(c c15Case) *vResult {
 				return res
 			}
 			// and profiles read through the cache path equal what was saved
-			state.remoteDBQueryTimeout = 0
+			w.vPrimaryOutage(true)
 			for u, want := range model {
 				gotP, ok, fromCache, err := state.LoadUserProfile(u)
 				if err != nil || !ok || !fromCache {
@@ -372,7 +373,7 @@ func c15Check(c c15Case) *vResult {
 					}
 				}
 			}
-			state.remoteDBQueryTimeout = vPrimaryPatience
+			w.vPrimaryOutage(false)
 			if len(res.Violations) > 0 {
 				return res
 			}
@@ -411,6 +412,7 @@ func c15OutageCheck(c c15OutageCase) *vResult {
 	w := vNewWorld(vWorldOpts{WebUIBackends: []string{"password"}, CertBackends: []string{"password", "TOTP"},
 		Users: map[string]string{vUserAlice: vPwAlice, "root-admin": "x", "carol": "carol-pw"}, AdminUsers: []string{"root-admin"}, EnableLocalTOTP: true, EnableBootstrapOTP: true})
 	defer w.Close()
+	w.vShimPrimary()
 	state := w.state
 	w.vSetTOTP(vUserAlice, vTOTPSecretAlice)
 	w.vSetU2F(vUserAlice, vNewSoftU2F("c15out"), 100)
@@ -434,9 +436,9 @@ func c15OutageCheck(c c15OutageCase) *vResult {
 	if err := copyDBIntoSQLite(state.db, state.cacheDB, "sqlite"); err != nil {
 		panic(err)
 	}
-	// primary outage, as the repository's own cache test simulates it
-	state.remoteDBQueryTimeout = 0
-	beforeP, beforeC := c15Dump(state.db, false), c15Dump(state.cacheDB, false)
+	// primary outage: reads hang, writes fail (wrapping SQL driver)
+	beforeP, beforeC := c15Dump(w.vRawPrimary(), false), c15Dump(state.cacheDB, false)
+	w.vPrimaryOutage(true)
 	var req *http.Request
 	var handler http.HandlerFunc
 	user := vUserAlice
@@ -506,8 +508,8 @@ func c15OutageCheck(c c15OutageCase) *vResult {
 	resp := vServe(handler, req)
 	// let a possibly detached writer finish
 	time.Sleep(30 * time.Millisecond)
-	state.remoteDBQueryTimeout = vPrimaryPatience
-	afterP, afterC := c15Dump(state.db, false), c15Dump(state.cacheDB, false)
+	w.vPrimaryOutage(false)
+	afterP, afterC := c15Dump(w.vRawPrimary(), false), c15Dump(state.cacheDB, false)
 	if resp.Panic != "" {
 		res.violate("panic:"+c.Op, "handler panicked during the outage: %s", firstLine(resp.Panic))
 		return res
